@@ -13,6 +13,7 @@ interleavings; the check therefore also runs the real code from 8 goroutines und
 detector and compares parallel with sequential results.
 -/
 import RosedVerif.Model.InstAFacts
+import RosedVerif.Heap.Histories
 import RosedVerif.Gen.Facts
 namespace RosedVerif.Props
 open RosedVerif RosedVerif.H
@@ -74,5 +75,26 @@ theorem C20_heap_writes : Gen.heapWrites = [
 /-- in particular no function of package rosed (Editor, Options, sub-editors) writes through a pointer -/
 theorem C20_rosed_writes_nothing :
     (Gen.heapWrites.filter fun w => w.1 == "rosed") = [] := by decide
+
+
+/-! ### C20 over ALL histories -/
+
+/-- in the state reached by any history the package-level cell is filled, the next call leaves it
+equal to `some []`, and no write event of that call mentions it -/
+theorem C20_histories_zero_never_written (ops : List H.Op) (op : H.Op) :
+    (H.run ops).1.get 0 = some [] ∧ (H.step (H.run ops) op).1.get 0 = some [] ∧ ¬ Mentions (H.writes (H.run ops) op) 0 :=
+  H.histories_zero_never_written C20_zero_prefilled ops op
+
+/-- a cell filled at any point of a history has the same content at every later point and is never
+mentioned by a later write event -/
+theorem C20_histories_filled_never_written (ops ops' : List H.Op) (c : Nat) (x : List Nat)
+    (hx : (H.run ops).1.get c = some x) :
+    (H.run (ops ++ ops')).1.get c = some x ∧ ∀ op, ¬ Mentions (H.writes (H.run (ops ++ ops')) op) c :=
+  H.histories_filled_never_written ops ops' c x hx
+
+/-- footprint of every call of every history; the receiver is a pool value or the zero value -/
+theorem C20_histories_footprint (ops : List H.Op) (op : H.Op) :
+    (∀ w ∈ H.writes (H.run ops) op, Footprint (H.run ops).1 (op.call (H.run ops).2).recv w) ∧
+    (∀ r, (op.call (H.run ops).2).recv = some r → r ∈ zero :: (H.run ops).2) := H.histories_footprint ops op
 
 end RosedVerif.Props
